@@ -314,6 +314,18 @@ theorem limit_zero_off (s : Bytes) :
   · intro dU dC h; exact ((uu_limit 0 dU dC s).mp h).1 rfl
   · intro mk r h; exact ((size_limit 0 mk r s).mp h).1 rfl
 
+/-- **the guard in the source** (structure facts regenerated from the library's source on this run,
+`tools/extract/structure.go`): in each package the function every public parser entry point funnels its input
+through (`DefaultParser`; `sem`: `unmarshalText`, reached directly by `DefaultParser`, `Parse`, `ParseVersion`,
+`ParseTag`; `roman`: `checkInputLength`, called first by `DefaultParser` and by `Valid`) begins — after constant
+declarations, taking the input's length and returning on the empty input — with
+`if MaxInputLength != 0 && len(input) > MaxInputLength { return … ErrInputTooLong … }` (operands in either order,
+`a > b` or `b < a`, the length bound in the `if`'s init or before it, or the two tests as nested `if`s), whose body
+does not read the input. -/
+theorem limit_guard_source_facts :
+    Gen.date_limitCheckedFirst = true ∧ Gen.roman_limitCheckedFirst = true ∧ Gen.roman_Valid_limitCheckedFirst = true ∧
+    Gen.sem_limitCheckedFirst = true ∧ Gen.size_limitCheckedFirst = true ∧ Gen.uu_limitCheckedFirst = true := by decide
+
 /-! non-vacuity -/
 example : Date.parse 10 false (List.replicate 11 48) = .err .tooLong := by decide
 example : Sem.unmarshalText 4 true true [49, 46, 48, 46, 48] = .err .tooLong := by decide
